@@ -216,4 +216,25 @@ def ntcg (P : NProb n m p K) (Q : NParams n m K) (O : NOracle n m K) (fuel : ℕ
 def violation (P : NProb n m p K) (x : Fin n → K) : K :=
   (∑ j, max ((P.aub *ᵥ x) j - P.bub j) 0 ^ 2) + (P.aeq *ᵥ x - P.beq) ⬝ᵥ (P.aeq *ᵥ x - P.beq)
 
+/-- the projection made trustworthy (as `Ctcg.checkedProj`): the proposal is used only after the exact check that it
+lies in the null space of the working constraints; otherwise the zero vector is used -/
+def checkedProjN (P : NProb n m p K)
+    (propose : (Fin n → Bool) → (Fin n → Bool) → (Fin m → Bool) → (Fin m → Bool) → (Fin n → K) × (Fin m → K) → (Fin n → K) × (Fin m → K))
+    (fl fu : Fin n → Bool) (fs fb : Fin m → Bool) (v : (Fin n → K) × (Fin m → K)) : (Fin n → K) × (Fin m → K) :=
+  let w := propose fl fu fs fb v
+  if (∀ i, fl i = false ∨ fu i = false → w.1 i = 0) ∧ (∀ j, fs j = false → w.2 j = 0) ∧
+      (∀ j, fb j = false → (P.aub *ᵥ w.1) j - w.2 j = 0) then w else (0, 0)
+
+/-- `_alpha_tr(step, sd[:n], delta)` made trustworthy: `ZeroDivisionError` exactly for a zero direction (what the code
+does for `TINY = 0`); a proposal is used only after the exact check that it is non-negative and keeps the iterate in
+the ball, otherwise the step length is 0 -/
+def checkedATrN (delta : K) (propose : (Fin n → K) → (Fin n → K) → K) (step sd : Fin n → K) : Option K :=
+  if sd = 0 then none else
+  let a := propose step sd
+  if 0 ≤ a ∧ (step + a • sd) ⬝ᵥ (step + a • sd) ≤ delta ^ 2 then some a else some 0
+
+/-- the second `_alpha_tr`: `ZeroDivisionError` for a zero direction, otherwise a non-negative value -/
+def slackATr (propose : (Fin m → K) → (Fin m → K) → K) (g d : Fin m → K) : Option K :=
+  if d = 0 then none else some (max (propose g d) 0)
+
 end Cobyqa.Ntcg
